@@ -1,0 +1,104 @@
+// Verification hooks (compiled only with `--cfg betaveros_noulith_verif`).
+//
+// A logical step counter ("fuel"), a nesting-depth guard and a one-shot fault
+// injection point, so that an external monitor can bound runaway evaluations
+// in logical steps instead of wall-clock time and can inject an error at the
+// n-th evaluation step. All state is thread-local; nothing here is reachable
+// when the cfg is off.
+use crate::core::{NErr, NRes};
+use std::cell::Cell;
+
+thread_local! {
+    static FUEL: Cell<u64> = Cell::new(u64::MAX);
+    static TICKS: Cell<u64> = Cell::new(0);
+    static DEPTH: Cell<usize> = Cell::new(0);
+    static MAX_DEPTH: Cell<usize> = Cell::new(usize::MAX);
+    static PEAK_DEPTH: Cell<usize> = Cell::new(0);
+    static FAIL_AT: Cell<u64> = Cell::new(0);
+    static OUT_OF_FUEL: Cell<bool> = Cell::new(false);
+    static TOO_DEEP: Cell<bool> = Cell::new(false);
+    static INJECTED: Cell<bool> = Cell::new(false);
+}
+
+#[derive(Debug, Clone, Copy, PartialEq, Eq)]
+pub struct Status {
+    pub ticks: u64,
+    pub peak_depth: usize,
+    pub out_of_fuel: bool,
+    pub too_deep: bool,
+    pub injected: bool,
+}
+
+/// Start a new measured run: `fuel` ticks are allowed, nesting of `evaluate`
+/// may reach `max_depth`, and (if nonzero) exactly the `fail_at`-th tick fails
+/// once with an ordinary thrown error.
+pub fn reset(fuel: u64, max_depth: usize, fail_at: u64) {
+    FUEL.with(|c| c.set(fuel));
+    TICKS.with(|c| c.set(0));
+    DEPTH.with(|c| c.set(0));
+    MAX_DEPTH.with(|c| c.set(max_depth));
+    PEAK_DEPTH.with(|c| c.set(0));
+    FAIL_AT.with(|c| c.set(fail_at));
+    OUT_OF_FUEL.with(|c| c.set(false));
+    TOO_DEEP.with(|c| c.set(false));
+    INJECTED.with(|c| c.set(false));
+}
+
+pub fn status() -> Status {
+    Status {
+        ticks: TICKS.with(|c| c.get()),
+        peak_depth: PEAK_DEPTH.with(|c| c.get()),
+        out_of_fuel: OUT_OF_FUEL.with(|c| c.get()),
+        too_deep: TOO_DEEP.with(|c| c.get()),
+        injected: INJECTED.with(|c| c.get()),
+    }
+}
+
+pub fn tick() -> NRes<()> {
+    let t = TICKS.with(|c| {
+        let t = c.get() + 1;
+        c.set(t);
+        t
+    });
+    if OUT_OF_FUEL.with(|c| c.get()) || t > FUEL.with(|c| c.get()) {
+        OUT_OF_FUEL.with(|c| c.set(true));
+        return Err(NErr::throw("verif: fuel".to_string()));
+    }
+    if TOO_DEEP.with(|c| c.get()) {
+        return Err(NErr::throw("verif: depth".to_string()));
+    }
+    if t == FAIL_AT.with(|c| c.get()) {
+        INJECTED.with(|c| c.set(true));
+        return Err(NErr::throw("verif: injected".to_string()));
+    }
+    Ok(())
+}
+
+pub struct DepthGuard;
+
+impl Drop for DepthGuard {
+    fn drop(&mut self) {
+        DEPTH.with(|c| c.set(c.get().saturating_sub(1)));
+    }
+}
+
+/// One tick plus one level of nesting for the lifetime of the guard.
+pub fn enter() -> NRes<DepthGuard> {
+    tick()?;
+    let d = DEPTH.with(|c| {
+        let d = c.get() + 1;
+        c.set(d);
+        d
+    });
+    let guard = DepthGuard;
+    PEAK_DEPTH.with(|c| {
+        if d > c.get() {
+            c.set(d)
+        }
+    });
+    if d > MAX_DEPTH.with(|c| c.get()) {
+        TOO_DEEP.with(|c| c.set(true));
+        return Err(NErr::throw("verif: depth".to_string()));
+    }
+    Ok(guard)
+}
